@@ -321,7 +321,17 @@ def occOf (o : Json) : Except String OccIn := do
     | .ok (.str "items"), .ok (.str w) => some w.toList
     | .ok (.str "items"), _ => some prop
     | _, _ => none
-  pure { occ := { named, kind, ord, canon := canonString (← toJ value), ekey, refs := if kind == .union then refsOf u else [], disc := u.disc }, schema, holder, prop, single }
+  -- a type-less schema with only annotations: its `title`
+  let titleOnly : Option (List Char) :=
+    match schema with
+    | .obj kvs =>
+      if kvs.toList.all (fun (k, _) => k == "title" || k == "description") then
+        (match schema.getObjVal? "title" with
+         | .ok (.str t) => some t.toList          -- compared with the component KEY as written (`graph().get(title)`)
+         | _ => none)
+      else none
+    | _ => none
+  pure { occ := { named, kind, ord, canon := canonString (← toJ value), ekey, refs := if kind == .union then refsOf u else [], disc := u.disc, title := titleOnly }, schema, holder, prop, single }
 
 /-- F13-6: the item type of an array member `H.ps` is named `H` + Pascal(singular `ps`) at run time; an inline
 enum at the sibling member `H.p` with `p` = that singular has the same pre-computed name and is given it
@@ -468,6 +478,8 @@ def shareSitesH : Handler := fun req => do
           match occsR[r]? with
           | some orp =>
             let cs := if r != i then classesFor oi.schema orp.schema taggedRefs else []
+            -- F-C13-8: the site is a titled type-less schema and the model's representative is the component of that name
+            let cs := if r != i && oi.occ.title.isSome && oi.occ.title == orp.occ.named then ["KnownTitleCapture"] else cs
             let cs := if cs.isEmpty && touched toksR i then [clashClass toksR i] else cs
             if !cs.isEmpty then attributed := attributed + 1; known := cs ++ known
           | none => if touched toksR i then attributed := attributed + 1; known := clashClass toksR i :: known
